@@ -95,6 +95,23 @@ func c05Inputs(n int, seed uint64) []string {
 	for _, p := range phrases {
 		add("1 " + p + " union select 1")
 	}
+	// markup and SQL whose keyword test upper-cases a short piece of the
+	// input: lower-case letters at the start of a comment / declaration /
+	// word, a NUL further on (a copy-free path that writes into the input)
+	for _, x := range []string{"<!--important note\x00 -->", "<!-- some comment text \x00-->", "<?import abc\x00def ghi>", "<!entity abcdefgh\x00>", "<!doctype html\x00 public>", "<?xml version\x00>", "<!--[if lowercase\x00]>",
+		"<a onclick\x00=x hrefabcdef\x00=y>", "<scriptlowercase\x00 x>", "x' onmouseover\x00\x00=alert(1) ", "<a href=\"javascript\x00:alert(1)\">", "<a style\x00=x>", "select lower\x00case from t -- sp_password\x00", "union\x00 select\x00 1", "1 /*comment\x00 lowercase*/ union select 1"} {
+		add(x)
+	}
+	// inputs that are positive in more than one reading, with different
+	// fingerprints, short and beyond the sizes at which work might be split
+	// up: the answer must be the first reading's, every time
+	for _, a := range []string{"1 or 1=1 -- ' or 1=1 -- ", "a' or 1=1 -- \" union select 1,2 -- ", "x)--'--", "x union#'--", "1 or 1=1 -- \" union select 1 -- ' or 'a'='a"} {
+		add(a)
+		for _, n := range []int{70000, 170000, 300000} {
+			add(a + strings.Repeat(" a", n/2))
+			add(a + strings.Repeat("b", n))
+		}
+	}
 	// inputs that end inside a construct leave scanner state "dirty"; inputs
 	// whose verdict hinges on one flag are sensitive to it. Every prefix of a
 	// few rich inputs supplies both kinds.
@@ -262,6 +279,12 @@ func C05Work(cfgPath string) int {
 	}
 	if cfg.Mode == "burst" {
 		return c05Burst(&cfg)
+	}
+	// digests of the inputs before any call: the library is handed Go strings
+	// and must leave their bytes alone
+	inDigest := make([]uint64, len(inputs))
+	for i, in := range inputs {
+		inDigest[i] = core.Hash64(in)
 	}
 	runtime.GOMAXPROCS(cfg.P)
 	type heldFp struct {
@@ -447,6 +470,12 @@ func C05Work(cfgPath string) int {
 	out.TablesBefore = tablesBefore
 	out.TablesAfter, _ = tablesDigest()
 	out.Results = [][]string{make([]string, len(inputs)), make([]string, len(inputs))}
+	for i, in := range inputs {
+		if core.Hash64(in) != inDigest[i] && len(out.Bad) < 32 {
+			orig, _ := strconv.Unquote(cfg.Inputs[i])
+			out.Bad = append(out.Bad, fmt.Sprintf("the bytes of input %d were changed by the library: handed over as %s, now %s", i, strconv.Quote(trunc(orig, 80)), strconv.Quote(trunc(in, 80))))
+		}
+	}
 	for g, p := range privs {
 		out.Calls += p.calls
 		out.Reused += p.reused
@@ -590,7 +619,7 @@ func c05() *core.Check {
 	ch := &core.Check{
 		ID: "C05",
 		Rule: "race run: a race-instrumented build runs G goroutines (4/16/64) x GOMAXPROCS (2/4/16) hammering a shared input set (2600 inputs; thorough 5000: single-bit twins of short inputs, two-quote payloads, attacks padded to 64 KiB-1 MiB, rare-branch inputs, every prefix of ten rich inputs, near-duplicate families differing in one byte, every hand-written seed) with IsSQLi and IsXSS mixed, random Gosched, and no synchronisation between start barrier and final join; three load bursts (48, 160 and - on the SQL inputs only - 256 goroutines released together on eight inputs of 0.8-48 MiB, answers compared with the same process's sequential answers); report blocks are counted in the GORACE log and de-duplicated by outermost library frames. " +
-			"history run: permuted / interleaved call histories in fresh child processes with per-goroutine event logs; offline checker: one result per (operation,input) across all histories, goroutines and repetitions, equal to the fresh-process reference (process whose only call is that input); the shared tables are digested before and after every history / race run (quiescent points) and must be unchanged. " +
+			"history run: permuted / interleaved call histories in fresh child processes with per-goroutine event logs; offline checker: one result per (operation,input) across all histories, goroutines and repetitions, equal to the fresh-process reference (process whose only call is that input); the bytes of every input are digested before the first and after the last call of a history and must be unchanged; the shared tables are digested before and after every history / race run (quiescent points) and must be unchanged. " +
 			"Non-trivial = distinct (operation,input) pairs asked under at least two different predecessors or concurrently; evaluations = library calls made.",
 		Assumptions: []string{
 			"the race detector is happens-before based: it reports unordered conflicting accesses it observes, on the paths the input set reaches",
